@@ -71,43 +71,55 @@ CHECKS = [
           "contract (user supplied updaters are outside the closed world); effect catalogue of primitives is trusted.",
   "technique": "deductive verification: functional postconditions + determinism effect check + loop invariant; z3 (strings) + cvc5"},
  {"property_id": "C18",
-  "text": "set_value of every parameter class (base, int, float, str, bool, selection list / unit, map) is verified against 'read-only or "
+  "text": "set_value of every parameter class (base, int, float, str, bool, quantity, selection list / unit, map) is verified against 'read-only or "
           "invalid for the declared rule => raises with the value unchanged (strict frame); otherwise value := argument and the rule "
           "holds'; modifies = {_value} so the default never changes, and a frame scan shows default/read-only are constructor-only. "
           "Map get/remove by (dotted) key: the non-dotted case is whole-view (exactly that entry), the dotted case recurses through the "
           "callee contract. Model level: add/set/get_parameter contracts and the lemma 'get after set returns the value set' (closed-world "
           "dispatch over all parameter classes).",
   "design_ref": "DESIGN.md section 6 C18",
-  "note": COMMON_NOTE + " NOT yet under proof (kept as assumed callee contracts, see DESIGN 11): the parameter constructors and "
-          "InputParameterMap.add (duplicate refusal, priority order with stable ties); InputParameterQuantity.set_value is an assumed "
-          "contract. Values are plain python values (not Quantity instances) except for the quantity parameter. Strings in "
+  "note": COMMON_NOTE + " NOT yet under proof (kept as assumed callee contracts, see DESIGN 11): the parameter constructors; of "
+          "InputParameterMap.add the child-order clauses (assumed + bounded sweep). InputParameterQuantity.set_value IS verified "
+          "(instance of the parameter's quantity class, bounds on the SI value whatever the unit, over the Quantity model of C17 and "
+          "a class invariant whose fields are constructor-only). Values are plain python values except for the quantity parameter. Strings in "
           "sequences/dict keys are modelled by ids (z3 5.1 is unsound on sequences of strings).",
   "technique": "deductive verification: per-class validity invariant + strict frames, closed-world dispatch, lemma program for the model round trip; z3 + cvc5"},
  {"property_id": "C16",
   "text": "Table invariant TInv as ground obligations over the live module data, one per entry, exhaustive: every _mul entry has "
           "sig(C)=sig(A)+sig(B), every _div entry sig(C)=sig(A)-sig(B), every class's sisig() equals its _sidict over SIUNITS "
-          "(41 classes, all entries incl. the ones filled in by the module-level loop). The operator code itself "
-          "(Quantity.__mul__/__truediv__/..., SI arithmetic, as_quantity, SI string round trip) is NOT yet verified symbolically: "
-          "a BOUNDED stand-in runs the real * and / on every one of the 41x41 ordered class pairs (one value pair) and checks value, "
-          "signature and named-vs-generic result; it is labelled bounded and not counted as proved.",
+          "(41 classes, all entries incl. the ones filled in by the module-level loop). Verified symbolically for a generic receiver "
+          "class (see C17): adding, subtracting or ordering quantities of different types is refused (ValueError / TypeError "
+          "exactly when the dynamic classes differ), same-type + - and the six comparisons act on the SI values, scaling by a plain "
+          "number multiplies / divides the SI value. The product / quotient of two quantities (class-object keyed tables, SI "
+          "arithmetic, as_quantity) and the SI string round trip are NOT verified symbolically: BOUNDED stand-ins run the real * and / "
+          "on all 41x41 ordered class pairs (value, signature, named-vs-generic result), check that operands are not modified and "
+          "results do not alias, and print/parse every signature of a bounded set in all formats; labelled bounded, not counted.",
   "design_ref": "DESIGN.md section 6 C16",
   "category": "proof",
-  "note": "Proof-level only for the finite data invariants (decided by exhaustive evaluation of the dumped live tables). Operator "
-          "semantics: bounded (1681 pairs x 1 value pair). Not covered: mixed-type add/sub/order refusal, as_quantity, SI string "
-          "round trip (the reflective class-object code is outside the current engine subset).",
-  "technique": "ground obligations over the live conversion tables (exhaustive evaluation) + bounded native stand-in for the operators"},
+  "note": COMMON_NOTE + " Quantity x Quantity products / quotients: bounded (1681 pairs x 1 value pair + operand-reuse sweep). The "
+          "Quantity construction contract is assumed (see C17).",
+  "technique": "ground obligations over the live conversion tables (exhaustive evaluation); deductive verification of refusal / same-type / scaling clauses for a generic receiver; bounded native stand-ins for Quantity x Quantity and SI strings"},
  {"property_id": "C17",
-  "text": "Data invariant UInv as ground obligations over the live module data, exhaustive over 41 classes x all declared units: base "
+  "text": "Quantity._val/__add__/__sub__/__neg__/__abs__/__eq__/__ne__/__lt__/__le__/__gt__/__ge__/as_unit/si and scaling by a plain "
+          "number (* and /) are verified ONCE for a receiver of any of the 41 quantity classes (generic receiver; the methods are "
+          "inherited unchanged, calls on self are dispatched closed-world): the result's SI value is the sum / difference / negation / "
+          "absolute value / product / quotient of the SI values, it keeps the left operand's unit and class, comparisons are those "
+          "of the SI values, another quantity type is refused (ValueError / TypeError), as_unit copies the SI value (bit-identical: "
+          "no arithmetic except * factor(base unit) = * 1.0) for every declared target unit. Over a ghost SI value, the unit table of "
+          "the dynamic class as an uninterpreted map constrained only by the data invariant below. "
+          "Data invariant UInv as ground obligations over the live module data, exhaustive over 41 classes x all declared units: base "
           "unit declared with factor exactly 1; every factor a finite non-zero number; every unit has a description; every display "
           "unit is a str and keys are declared units; alias spellings (same display string / same description) share one factor; "
           "compound units a/b agree with the component units of the quantities given by the SI signature (unparsable names are "
           "listed as not checked); every name in __all__ exists.",
   "design_ref": "DESIGN.md section 6 C17",
   "category": "proof",
-  "note": "Proof-level for the finite data invariants (exhaustive evaluation of the dumped live tables). NOT covered yet: the "
-          "constructor/as_unit/displayvalue/comparison code of Quantity (reflective class-object code outside the current engine "
-          "subset) - 'si = value*factor', 'as_unit keeps si bit-identical' are not decided.",
-  "technique": "ground obligations over the live unit tables (exhaustive evaluation)"},
+  "note": COMMON_NOTE + " Assumed: construction `type(q)(x)` with unit None (float.__new__ through Quantity.__new__/__init__) yields "
+          "an object of q's class with SI value x * factor(base unit) and the base unit -- not verified (needs __new__ of a float "
+          "subclass), covered by the BOUNDED construction sweep, as are construction with a unit ('si = value * factor'), "
+          "displayvalue and str(). SI values are finite reals in the model; bit-identity claims are exact only where no arithmetic "
+          "happens (as_unit); sums are equal over the reals and swept natively for rounding (same-unit and mixed-unit operands).",
+  "technique": "deductive verification of the inherited operators for a generic receiver class over a ghost SI value; ground obligations over the live unit tables; bounded native sweeps; z3"},
  {"property_id": "C02",
   "text": "SimEvent.__init__/execute, DEVSSimulator.schedule_event/_now/_rel/_abs, cancel_event, _run (loop invariant), _step_impl "
           "are verified against contracts: scheduling in the past / with a negative delay / at NaN raises DSOLError with the pending "
